@@ -4,6 +4,7 @@ Static rules over the resolved program (clang front end facts; no FEAT3 code is 
 
  * E14.cycle-shape      the helper-event language of _apply_cycle_v/_f/_w equals the documented cycle
  * E14.level-range      level loops of the F/W cycle and of _apply_rest/_apply_prol have the documented ranges
+ * E2.w-counters        W-cycle counter array: subscripts are absolute levels, entry reset covers every later use
  * E13.cycle-dispatch   apply() maps MultiGridCycle::X to _apply_cycle_x
  * E7.hand-over         rhs(top) := vec_def before the cycle, vec_cor := sol(top) after it, vec_def const
  * E1.level-roles       every operation on level objects uses the vectors/operators of the right level and role
@@ -245,6 +246,212 @@ def check_w_count(ck, view, inst, event_ids, top=("top", 0)):
     ok = int(a["v"]) == 1 and int(one["v"]) == 1 and sh["cond"][0] == "<" and hi == ("last", 0) and lo == top and sh["step"][0] == 1
     ck.ob(rule, inst, ok, "%s: %s (documented: %s)" % ("W-cycle loop" if ok else "W-cycle loop differs", got, what), view.fn.file, loop.get("l"),
           sample={"loop": got})
+
+
+# -------------------------------------------------------------------------------------------------
+# W-cycle bookkeeping array: index kinds and reset coverage
+# -------------------------------------------------------------------------------------------------
+
+class Lin:
+    """alpha*last + beta*top + gamma  (last = min(_crs_level, size_physical()), top = _top_level)"""
+
+    def __init__(self, a=0, b=0, c=0):
+        self.a, self.b, self.c = a, b, c
+
+    def __add__(self, o):
+        return Lin(self.a + o.a, self.b + o.b, self.c + o.c)
+
+    def __sub__(self, o):
+        return Lin(self.a - o.a, self.b - o.b, self.c - o.c)
+
+    def shift(self, k):
+        return Lin(self.a, self.b, self.c + k)
+
+    def __str__(self):
+        t = []
+        for co, nm in ((self.a, "last"), (self.b, "top")):
+            if co:
+                t.append(("%s" % nm) if co == 1 else ("-%s" % nm if co == -1 else "%d*%s" % (co, nm)))
+        if self.c or not t:
+            t.append("%d" % self.c)
+        return "+".join(t).replace("+-", "-")
+
+    def nonneg(self, gap):
+        """>= 0 for all 0 <= top, top + gap <= last ?"""
+        # last = top + gap + t, top = s, s,t >= 0:  (a+b) s + a t + (a*gap + c)
+        return self.a + self.b >= 0 and self.a >= 0 and self.a * gap + self.c >= 0
+
+
+def lin_of(view, n):
+    n = view.value(n)
+    k = n.get("k")
+    if k == "Int":
+        return Lin(0, 0, int(n["v"]))
+    lv = view.level(n)
+    if lv is not None and lv[0] == "top":
+        return Lin(0, 1, lv[1])
+    if lv is not None and lv[0] == "last":
+        return Lin(1, 0, lv[1])
+    if k == "Bin" and n.get("op") in ("+", "-"):
+        a, b = lin_of(view, n["lhs"]), lin_of(view, n["rhs"])
+        if a is None or b is None:
+            return None
+        return a + b if n["op"] == "+" else a - b
+    return None
+
+
+def enclosing(view, node, kinds):
+    p = view.parent.get(node.get("i"))
+    out = []
+    while p is not None:
+        if p.get("k") in kinds:
+            out.append(p)
+        p = view.parent.get(p.get("i"))
+    return out
+
+
+def is_w_count_loop(view, loop):
+    """for(c = a; c < (1 << (last - top)); ++c) with a >= 1: an iteration implies last > top"""
+    sh = for_shape(view, loop)
+    if sh is None or sh["cond"] is None or sh["step"] is None or sh["init"] is None:
+        return False
+    a = view.value(sh["init"])
+    n = view.value(sh["cond"][1])
+    if a.get("k") != "Int" or int(a["v"]) < 1 or sh["cond"][0] != "<" or sh["step"][0] != 1:
+        return False
+    if not (n.get("k") == "Bin" and n.get("op") == "<<" and view.value(n["lhs"]).get("k") == "Int" and int(view.value(n["lhs"])["v"]) == 1):
+        return False
+    ex = view.value(n["rhs"])
+    return ex.get("k") == "Bin" and ex.get("op") == "-" and view.level(ex["lhs"]) == ("last", 0) and view.level(ex["rhs"]) == ("top", 0)
+
+
+def index_interval(view, sub, idx):
+    """symbolic interval [lo, hi] (Lin) of the values the subscript expression idx can take at site sub,
+    the guaranteed gap last - top >= gap at that site, and a description; raises NotImplementedError(text)"""
+    loops = enclosing(view, sub, ("For", "While", "Do"))
+    gap = 1 if any(l.get("k") == "For" and is_w_count_loop(view, l) for l in loops) else 0
+    e = strip(idx)
+    pre_dec = False
+    if e.get("k") == "Un" and e.get("op") == "--" and not e.get("post"):
+        pre_dec = True
+        e = strip(e["e"])
+    if e.get("k") != "Ref" or e.get("dk") != "local":
+        raise NotImplementedError("subscript %s is not a loop or search variable" % render(idx))
+    d = e["d"]
+    nm = e.get("n")
+    # (1) induction variable of an enclosing counting for-loop
+    for l in loops:
+        if l.get("k") != "For":
+            continue
+        sh = for_shape(view, l)
+        if sh is None or sh["d"] != d:
+            continue
+        if pre_dec or sh["cond"] is None or sh["step"] is None or sh["init"] is None:
+            raise NotImplementedError("loop over %s is not a counting loop" % nm)
+        I, B = lin_of(view, sh["init"]), lin_of(view, sh["cond"][1])
+        if I is None or B is None:
+            raise NotImplementedError("bounds %s / %s of the loop over %s are not level expressions" % (render(sh["init"]), render(sh["cond"][1]), nm))
+        op, (st, where, w) = sh["cond"][0], sh["step"]
+        if st == 1 and where == "inc" and op in ("<", "<="):
+            return I, (B.shift(-1) if op == "<" else B), gap, "for(%s = %s; %s %s %s; ++)" % (nm, I, nm, op, B)
+        if st == -1 and where == "inc" and op in (">", ">="):
+            return (B.shift(1) if op == ">" else B), I, gap, "for(%s = %s; %s %s %s; --)" % (nm, I, nm, op, B)
+        if st == -1 and where == "body" and op in (">", ">="):
+            body = l.get("body") or {}
+            first = (body.get("s") or [None])[0]
+            if first is None or strip(first).get("i") != w.get("i"):
+                raise NotImplementedError("decrement of %s is not the first statement of its loop body" % nm)
+            return (B if op == ">" else B.shift(-1)), I.shift(-1), gap, "for(%s = %s; %s %s %s;) { --%s; ..." % (nm, I, nm, op, B, nm)
+        raise NotImplementedError("loop over %s: step %+d in %s with condition %s" % (nm, st, where, op))
+    # (2) search variable:  T p = X;  while(p > B) { ... --p ... }
+    var = view.locals.get(d)
+    ws = view.writes.get(d, [])
+    if var is None or var.get("init") is None or len(ws) != 1 or not (ws[0].get("k") == "Un" and ws[0].get("op") == "--"):
+        raise NotImplementedError("variable %s is neither a loop variable nor a descending search variable" % nm)
+    wl = [l for l in enclosing(view, ws[0], ("While",))]
+    if not wl:
+        raise NotImplementedError("decrement of %s is not inside a while loop" % nm)
+    c = strip(wl[0].get("c") or {})
+    if not (c.get("k") == "Bin" and c.get("op") == ">" and strip(c["lhs"]).get("k") == "Ref" and strip(c["lhs"])["d"] == d):
+        raise NotImplementedError("search loop condition %s" % render(c))
+    X, B = lin_of(view, var["init"]), lin_of(view, c["rhs"])
+    if X is None or B is None:
+        raise NotImplementedError("search bounds %s / %s are not level expressions" % (render(var["init"]), render(c["rhs"])))
+    desc = "%s = %s; while(%s > %s) --%s" % (nm, X, nm, B, nm)
+    if pre_dec:
+        return B, X.shift(-1), gap, desc
+    # after the search: p in [B, X]; if X > B is guaranteed the loop body ran at least once, hence p <= X-1
+    d0 = X - B
+    ran = Lin(d0.a, d0.b, d0.c - 1).nonneg(gap)
+    inside = any(l is wl[0] for l in loops)
+    if ran and not inside:
+        return B, X.shift(-1), gap, desc
+    return B, X, gap, desc
+
+
+def check_w_counters(ck, view, inst, inner_event_ids):
+    """every subscript of the W-cycle counter array is an absolute level in [top, last]; the reset at cycle entry
+    covers every counter that is read, incremented, re-zeroed or checked later"""
+    rule = "E2.w-counters"
+    subs = []
+    for n in walk(view.fn.body):
+        if n.get("k") == "OpCall" and n.get("op") == "[]" and len(n.get("a", [])) == 2 and mgmodel.is_this_member(n["a"][0], "_counters"):
+            subs.append(n)
+    if not subs:
+        ck.incomplete(rule, "%s: no subscript of _counters found" % inst)
+        return
+    wloop = loop_of(view, inner_event_ids)
+    wids = {x.get("i") for x in walk(wloop)} if wloop is not None else set()
+    first_inner = min(inner_event_ids, key=lambda e: (view.byid[e].get("l") or 0)) if inner_event_ids else None
+    TOP, LAST = Lin(0, 1, 0), Lin(1, 0, 0)
+    sites = []
+    for n in subs:
+        par = view.parent.get(n["i"])
+        while par is not None and par.get("k") == "Cast":
+            par = view.parent.get(par["i"])
+        kind = "read"
+        if par is not None and par.get("k") == "Assign" and strip(par["lhs"]) is n:
+            z = view.value(par["rhs"])
+            kind = "zero" if (par.get("op") == "=" and z.get("k") == "Int" and int(z["v"]) == 0) else "write"
+        elif par is not None and par.get("k") == "Un" and par.get("op") in ("++", "--"):
+            kind = "incr"
+        try:
+            lo, hi, gap, desc = index_interval(view, n, n["a"][1])
+        except NotImplementedError as ex:
+            ck.incomplete(rule, "%s: %s (line %s)" % (inst, ex, n.get("l")))
+            return
+        sites.append({"n": n, "kind": kind, "lo": lo, "hi": hi, "gap": gap, "desc": desc, "inw": n["i"] in wids})
+    entry = [s for s in sites if s["kind"] == "zero" and not s["inw"] and first_inner is not None
+             and first_inner in view.flow_from(s["n"]["i"])[0] and s["n"]["i"] not in view.flow_from(first_inner)[0]]
+    uses = [s for s in sites if s not in entry]
+    if not entry:
+        ck.ob(rule, "%s/entry-reset" % inst, False, "no loop zeroes _counters before the W-cycle iterations (documented: at the beginning of each W-cycle all peak counters are reset to 0)",
+              view.fn.file, view.fn.line)
+    else:
+        ck.ob(rule, "%s/entry-reset" % inst, True, "; ".join("_counters[%s] = 0 for %s in [%s, %s] (%s)" % (render(s["n"]["a"][1]), render(s["n"]["a"][1]), s["lo"], s["hi"], s["desc"]) for s in entry),
+              view.fn.file, entry[0]["n"].get("l"))
+    seen = {}
+    for s in uses:
+        key = "%s/%s _counters[%s]" % (inst, {"read": "read", "incr": "increment", "zero": "inner reset", "write": "write"}[s["kind"]], render(s["n"]["a"][1]))
+        seen[key] = seen.get(key, 0) + 1
+        if seen[key] > 1:
+            key += "#%d" % seen[key]
+        problems = []
+        if not (s["lo"] - TOP).nonneg(s["gap"]) or not (LAST - s["hi"]).nonneg(s["gap"]):
+            problems.append("index range [%s, %s] is not within the absolute level range [top, last] of this multigrid" % (s["lo"], s["hi"]))
+        if entry:
+            cov = [e for e in entry if (s["lo"] - e["lo"]).nonneg(s["gap"]) and (e["hi"] - s["hi"]).nonneg(s["gap"])]
+            if not cov:
+                e = entry[0]
+                why = []
+                if not (s["lo"] - e["lo"]).nonneg(s["gap"]):
+                    why.append("starts at %s > %s" % (e["lo"], s["lo"]))
+                if not (e["hi"] - s["hi"]).nonneg(s["gap"]):
+                    why.append("ends at %s < %s for some 0 <= top_level < last_level" % (e["hi"], s["hi"]))
+                problems.append("counters [%s, %s] are used here but the reset at cycle entry covers only [%s, %s] (%s): counters of a previous application survive" % (
+                    s["lo"], s["hi"], e["lo"], e["hi"], ", ".join(why)))
+        ck.ob(rule, key, not problems, "; ".join(problems) if problems else "index in [%s, %s] (%s): absolute level, covered by the entry reset" % (s["lo"], s["hi"], s["desc"]),
+              view.fn.file, s["n"].get("l"), sample={"range": "[%s, %s]" % (s["lo"], s["hi"]), "from": s["desc"]})
 
 
 # -------------------------------------------------------------------------------------------------
@@ -609,6 +816,7 @@ def run(tier):
     ck.rule("E7.filter-rhs", "every restricted right-hand side is filter_def-ed with the coarse level's filter before that level is processed; breaks for any filter that is not the identity", 6)
     ck.rule("E8.sol-epoch", "a level solution is started afresh (format / solve from rhs) exactly when its rhs is new, and corrections are only added to / prolongated from a solution of the current rhs; breaks on repeated application and in the F/W inner peaks", 36)
     ck.rule("E7.peak-fallback", "_apply_smooth_peak applies the peak smoother if given, otherwise the pre-smoother then the post-smoother, each if given, each only after its presence was tested", 9)
+    ck.rule("E2.w-counters", "every subscript of the W-cycle peak-counter array _counters (search, inner reset, increment, sanity check) is an absolute level index within [top_level, last_level], and the reset at cycle entry covers, as symbolic intervals in top_level/last_level, every counter any later statement can touch; breaks on the second W-cycle application with top_level > 0 (stale counters: wrong peak order / sanity abort)", 5)
     ck.rule("E6.adapt-omega", "adaptive coarse grid correction: MinEnergy w = <def,cor>/<A cor,cor>, MinDefect w = <def,A cor>/<A cor,A cor> with tmp = A*cor of the same level", 2)
 
     extra = ("-DC09_THOROUGH",) if tier == "thorough" else ()
@@ -655,6 +863,7 @@ def run(tier):
                     ck.ob("E14.level-range", "%s::%s/loop-var" % (sc, fnm), False, "the peak level passed to the helpers is not the loop variable", v.fn.file, v.fn.line)
             else:
                 check_w_count(ck, v, "%s::%s" % (sc, fnm), inner)
+                check_w_counters(ck, v, "%s::%s" % (sc, fnm), inner)
         for fnm in ("_apply_rest", "_apply_prol"):
             v = views[fnm]
             lev = [e for e, ev in events[fnm] if ev["kind"] not in ("helper", "unknown")]
